@@ -257,6 +257,7 @@ type engine struct {
 	ccids                        [][]byte
 	routersSeen                  map[string]int
 	release                      func()
+	btw                          map[int]uint64
 }
 
 var (
@@ -448,6 +449,14 @@ func (e *engine) expectOK(what string, res world.Result) {
 
 func (e *engine) slot(c int) int { return mod(c, len(e.c.Chains)) }
 
+// blocksToWait: 1 in the history checks (one trust-root header); the C23 unit sets it per chain
+func (e *engine) blocksToWait(s int) uint64 {
+	if v, ok := e.btw[s]; ok {
+		return v
+	}
+	return 1
+}
+
 func (e *engine) opReg(s int) {
 	ch := e.c.Chains[s]
 	var extra []byte
@@ -459,7 +468,7 @@ func (e *engine) opReg(s int) {
 		extra = sk.Bytes()
 	}
 	p := &side_chain_manager.RegisterSideChainParam{Address: ownerOf(s), ChainId: ch.ID, Router: ch.Router,
-		Name: fmt.Sprintf("chain-%d", ch.ID), BlocksToWait: 1, CCMCAddress: ccmcOf(s), ExtraInfo: extra}
+		Name: fmt.Sprintf("chain-%d", ch.ID), BlocksToWait: e.blocksToWait(s), CCMCAddress: ccmcOf(s), ExtraInfo: extra}
 	sk := common.NewZeroCopySink(nil)
 	p.Serialization(sk)
 	res, d := e.exec(utils.SideChainManagerContractAddress, "registerSideChain", sk.Bytes(), []common.Address{ownerOf(s)})
@@ -682,11 +691,12 @@ type importTx struct {
 	proof   []byte
 	relayer []byte
 	extra   []byte
+	header  []byte
 	signers []common.Address
 }
 
 func (t *importTx) args() []byte {
-	p := &scom.EntranceParam{SourceChainID: t.src, Height: t.height, Proof: t.proof, RelayerAddress: t.relayer, Extra: t.extra}
+	p := &scom.EntranceParam{SourceChainID: t.src, Height: t.height, Proof: t.proof, RelayerAddress: t.relayer, Extra: t.extra, HeaderOrCrossChainMsg: t.header}
 	sk := common.NewZeroCopySink(nil)
 	p.Serialization(sk)
 	return sk.Bytes()
